@@ -127,6 +127,14 @@ CLAIMS = {
              "index as seed; str keys are utf-8 encoded before the first digest / mapped through ord for FNV. Purity of "
              "user-supplied callables is a contract, not decided.",
         design_ref="DESIGN.md section 4 C18"),
+    "C11": dict(
+        technique="must-precede ordering on inlined event sequences, struct-literal offset arithmetic, who-may-write rule, path-provenance label flow",
+        text="Ordering/provenance part only: on every path add_alt performs bit stores, counter, flush mapping, seek, 8-byte write, flush "
+             "file in that order; close syncs before releasing; the rewritten bytes are exactly slot 1 of the footer (computed from the "
+             "struct literals); after creation only OR-stores and that slot write touch the file; every public mutator of persisted state "
+             "reaches the sync; every path handed to open/copyfile/_load is the resolved path without lossy projection; reopening "
+             "restores the count. NOT decided: crash atomicity of the 8-byte write, page-cache / msync behaviour (OS semantics).",
+        design_ref="DESIGN.md section 4 C11"),
 }
 
 NA_DEFAULT = "check not built yet (build phase in progress; DESIGN.md section 4 gives the planned rule)"
